@@ -19,11 +19,12 @@ import sys
 
 VERIF = os.path.dirname(os.path.dirname(os.path.abspath(__file__)))
 REPO = os.environ.get("S4SIM_REPO", "/repo")
-TARGET = os.path.join(VERIF, "target")
-SHADOW = os.path.join(VERIF, "shadow")
+TARGET = os.environ.get("S4SIM_TARGET") or os.path.join(VERIF, "target")
+SHADOW = os.path.join(VERIF, "shadow") if REPO == "/repo" else os.path.join(TARGET, "shadow")
 S4BIN = os.path.join(TARGET, "verif", "s4")
-AUXBIN = os.path.join(TARGET, "aux", "release", "s4aux")
-PRELOAD = os.path.join(TARGET, "preload", "libs4seed.so")
+_SHARED = os.path.join(VERIF, "target")      # aux tool and preload shim do not depend on /repo
+AUXBIN = os.path.join(_SHARED, "aux", "release", "s4aux")
+PRELOAD = os.path.join(_SHARED, "preload", "libs4seed.so")
 
 
 class HarnessError(Exception):
@@ -85,7 +86,7 @@ def _write_if_changed(path, text):
 def build_s4(repo=REPO, target=TARGET, quiet=True):
     os.makedirs(SHADOW, exist_ok=True)
     os.makedirs(target, exist_ok=True)
-    shadow = SHADOW if repo == REPO else os.path.join(target, "shadow")
+    shadow = SHADOW
     os.makedirs(shadow, exist_ok=True)
     _write_if_changed(os.path.join(shadow, "Cargo.toml"), shadow_manifest(repo))
     # lock file: start from the repository's own lock whenever that one changes
@@ -112,7 +113,7 @@ def build_aux():
     env = _cargo_env()
     cmd = ["cargo", "build", "--offline", "--release",
            "--manifest-path", os.path.join(VERIF, "aux", "Cargo.toml"),
-           "--target-dir", os.path.join(TARGET, "aux")]
+           "--target-dir", os.path.join(_SHARED, "aux")]
     r = subprocess.run(cmd, env=env, stdout=subprocess.PIPE, stderr=subprocess.STDOUT, text=True)
     if r.returncode != 0:
         raise HarnessError("cargo build of s4aux failed:\n" + r.stdout[-6000:])
